@@ -139,6 +139,8 @@ class Interp(ModelMixin):
             return (type(v).__name__, self.odescr(v.origin, st))
         if isinstance(v, BoundV):
             return ('bound', self._vk(v.recv, st), v.qual)
+        if isinstance(v, LamV):
+            return ('lambda', v.key, tuple((n, self._vk(x, st)) for n, x in v.captured), tuple(self._vk(x, st) for x in v.defaults))
         return v
 
     # ================================================================ calls
@@ -751,11 +753,31 @@ class Interp(ModelMixin):
             if isinstance(n, (ast.Yield, ast.YieldFrom, ast.Nonlocal, ast.Global)):
                 raise AnalysisError(f'nested function definition {stmt.name} at line {stmt.lineno} is a generator or rebinds outer names')
         params = {x.arg for x in a.args}
-        free = {n.id for n in ast.walk(stmt) if isinstance(n, ast.Name)} - params
-        captured = tuple(sorted(((n, st.frame.env[n]) for n in free if n in st.frame.env and n != stmt.name), key=lambda kv: kv[0]))
+        free = {n.id for b in stmt.body for n in ast.walk(b) if isinstance(n, ast.Name)} - params
         self.lambdas[id(stmt)] = (stmt, st.frame.func)
-        st.frame.env[stmt.name] = LamV(id(stmt), captured)
-        return [(NEXT, st)]
+        res = []
+        for dvals, s in self._eval_defaults(a.defaults, st):
+            if isinstance(dvals, Raise):
+                res.append((('raise', dvals.exc), s))
+                continue
+            captured = tuple(sorted(((n, s.frame.env[n]) for n in free if n in s.frame.env and n != stmt.name), key=lambda kv: kv[0]))
+            s.frame.env[stmt.name] = LamV(id(stmt), captured, dvals, len(s.frames))
+            res.append((NEXT, s))
+        return res
+
+    def _eval_defaults(self, defaults, st):
+        """parameter defaults are evaluated once, where the function object is created"""
+        outs = [((), st)]
+        for d in defaults:
+            nxt = []
+            for acc, s in outs:
+                if isinstance(acc, Raise):
+                    nxt.append((acc, s))
+                    continue
+                for v, s2 in self.ev(d, s):
+                    nxt.append((v if isinstance(v, Raise) else acc + (v,), s2))
+            outs = nxt
+        return outs
 
     def st_ClassDef(self, stmt, st):
         raise AnalysisError(f'nested class definition {stmt.name} at line {stmt.lineno}')
@@ -1024,6 +1046,8 @@ class Interp(ModelMixin):
                 visit_val(v.recv)
             elif isinstance(v, LamV):
                 for _, x in v.captured:
+                    visit_val(x)
+                for x in v.defaults:
                     visit_val(x)
             elif isinstance(v, PartV):
                 if v.func is not None:
@@ -1468,9 +1492,15 @@ class Interp(ModelMixin):
         if a.vararg or a.kwarg or a.kwonlyargs or a.posonlyargs:
             return [(Unknown('lambda'), st)]
         free = {n.id for n in ast.walk(e.body) if isinstance(n, ast.Name)} - {x.arg for x in a.args}
-        captured = tuple(sorted(((n, st.frame.env[n]) for n in free if n in st.frame.env), key=lambda kv: kv[0]))
         self.lambdas[id(e)] = (e, st.frame.func)
-        return [(LamV(id(e), captured), st)]
+        res = []
+        for dvals, s in self._eval_defaults(a.defaults, st):
+            if isinstance(dvals, Raise):
+                res.append((dvals, s))
+                continue
+            captured = tuple(sorted(((n, s.frame.env[n]) for n in free if n in s.frame.env), key=lambda kv: kv[0]))
+            res.append((LamV(id(e), captured, dvals, len(s.frames)), s))
+        return res
 
     def call_lambda(self, lam, args, kwargs, st, node):
         e, func = self.lambdas[lam.key]
@@ -1478,6 +1508,12 @@ class Interp(ModelMixin):
         if len(args) > len(params):
             return [(self.exc('TypeError', st, node, 'too many arguments for lambda'), st)]
         env = dict(lam.captured)
+        # late binding: while the defining frame is alive, the free variables of the body are that frame's *current* variables
+        if 0 < lam.depth <= len(st.frames) and st.frames[lam.depth - 1].func is func:
+            live = st.frames[lam.depth - 1].env
+            for n in list(env):
+                if n in live:
+                    env[n] = live[n]
         defaults = e.args.defaults
         bound = dict(zip(params, args))
         for k, v in kwargs.items():
@@ -1499,7 +1535,12 @@ class Interp(ModelMixin):
         outs = []
         pre = [(None, st)]
         for p in missing:
-            dnode = defaults[len(defaults) - (len(params) - params.index(p))]
+            di = len(defaults) - (len(params) - params.index(p))
+            if di < len(lam.defaults):
+                for _, s in pre:
+                    s.frame.env[p] = lam.defaults[di]
+                continue
+            dnode = defaults[di]
             nxt = []
             for _, s in pre:
                 for v, s2 in self.ev(dnode, s):
